@@ -182,6 +182,9 @@ class DbSuite:
                         elif o[0] == "O" and a != "ok":
                             bad = (i, "reopen failed: %s" % a)
                             break
+                        elif o == "Y" and a != "exact":
+                            bad = (i, "directory contents are not exactly the needed files: %s" % a)
+                            break
                         elif o == "W" and a != "ok":
                             bad = (i, "background work did not quiesce")
                             break
